@@ -28,10 +28,10 @@ func (n *Node) Is(class, tag int) bool {
 
 type Range struct{ Start, End int }
 
-func (r Range) Len() int            { return r.End - r.Start }
-func (r Range) Of(b []byte) []byte  { return b[r.Start:r.End] }
-func (r Range) Empty() bool         { return r.End <= r.Start }
-func (r Range) String() string      { return fmt.Sprintf("[%d,%d)", r.Start, r.End) }
+func (r Range) Len() int           { return r.End - r.Start }
+func (r Range) Of(b []byte) []byte { return b[r.Start:r.End] }
+func (r Range) Empty() bool        { return r.End <= r.Start }
+func (r Range) String() string     { return fmt.Sprintf("[%d,%d)", r.Start, r.End) }
 
 var (
 	ErrIndefinite = errors.New("dergen: indefinite length (BER)")
@@ -145,28 +145,28 @@ type TokenRef struct {
 }
 
 type SignerInfo struct {
-	Full        Range
-	Version     int
-	SID         Range
-	SIDKind     string // "ias" or "ski"
-	Issuer      Range  // ias: Name TLV
-	Serial      Range  // ias: INTEGER content octets
-	SKI         Range  // ski: key identifier octets
-	DigestAlg   Range
-	DigestOID   string
-	HasSigned   bool
-	SignedAttrs Range // the [0] IMPLICIT TLV exactly as encoded
-	Attrs       []AttrLayout
-	SigAlg      Range
-	SigOID      string
-	SigParams   Range
-	Signature   Range // content octets of the OCTET STRING
-	SignatureTLV Range
-	HasUnsigned bool
+	Full          Range
+	Version       int
+	SID           Range
+	SIDKind       string // "ias" or "ski"
+	Issuer        Range  // ias: Name TLV
+	Serial        Range  // ias: INTEGER content octets
+	SKI           Range  // ski: key identifier octets
+	DigestAlg     Range
+	DigestOID     string
+	HasSigned     bool
+	SignedAttrs   Range // the [0] IMPLICIT TLV exactly as encoded
+	Attrs         []AttrLayout
+	SigAlg        Range
+	SigOID        string
+	SigParams     Range
+	Signature     Range // content octets of the OCTET STRING
+	SignatureTLV  Range
+	HasUnsigned   bool
 	UnsignedAttrs Range
-	UAttrs      []AttrLayout
-	Tokens      []TokenRef
-	CounterSigs []*SignerInfo
+	UAttrs        []AttrLayout
+	Tokens        []TokenRef
+	CounterSigs   []*SignerInfo
 }
 
 type CMS struct {
@@ -431,9 +431,9 @@ func FindAttrs(list []AttrLayout, oid string) []AttrLayout {
 // AllTokens lists every embedded token (and tokens nested in tokens) with the
 // path that leads to it.
 type FoundToken struct {
-	Path  string
-	Ref   TokenRef
-	Over  Range // signature value (content octets) the token is expected to stamp
+	Path string
+	Ref  TokenRef
+	Over Range // signature value (content octets) the token is expected to stamp
 }
 
 func (c *CMS) AllTokens() []FoundToken {
@@ -454,9 +454,9 @@ func (c *CMS) AllTokens() []FoundToken {
 
 // TSTInfo fields needed to check a token against the signature it stamps.
 type TSTInfo struct {
-	ImprintOID  string
-	Imprint     []byte
-	GenTime     string
+	ImprintOID string
+	Imprint    []byte
+	GenTime    string
 }
 
 func (c *CMS) TSTInfo() (*TSTInfo, error) {
